@@ -73,6 +73,11 @@ argument (nothing had to be classified "may write its arguments"). -/
 theorem C20_no_unknown_callee : unknownCalls = [] := by
   decide
 
+/-- No function of the analysed modules is wrapped by a decorator the translator does not know (or
+re-bound at module level): the summary is about the callables themselves, none keeps state. -/
+theorem C20_no_unknown_decorator : unknownDecorators = [] := by
+  decide
+
 /-! ## Histories -/
 
 theorem Load.Machine.run_eq_of_sound {V O : Type} (M : Machine V O) (hs : M.Sound) (op : Op) (h : List V)
